@@ -440,3 +440,41 @@ Example c06_nonvacuous_login :
   login_handler 100 true (lq POST (Some (good_token 2 bAny)) None None None) = LRefuse 401 /\
   login_handler 100 true (lq OTHER None None (bob true) None) = LRefuse 405.
 Proof. vm_compute. repeat split; reflexivity. Qed.
+
+(* ---- The gate over the life of a daemon (Model/GateHist.v).  The verdict on a request does not depend on
+   what the daemon has answered before: after ANY history of requests h - genuine credentials of the same or
+   of other users, look-alikes of them, admitted or refused, under any masks, clocks, deny lists - the verdict
+   on r is the verdict a daemon that has just started gives. *)
+From KM Require Import Model.GateHist Proofs.GateHist.
+
+Theorem c06_verdict_history_independent : forall h r, verdict_after h r = verdict_after [] r.
+Proof. exact verdict_history_independent. Qed.
+Print Assumptions c06_verdict_history_independent.
+
+(* ... every request of a history is judged as if it were the first one the daemon sees ... *)
+Theorem c06_history_pointwise : forall h, snd (gate_run tt h) = map (verdict_after []) h.
+Proof. exact run_is_pointwise. Qed.
+Print Assumptions c06_history_pointwise.
+
+(* ... so whoever is let in, after whatever came before, is established by the credentials of THIS request:
+   c06_gate_sound for a daemon of any age. *)
+Theorem c06_gate_sound_after_history : forall h r u l iat,
+  verdict_after h r = Admit u l iat ->
+  proves (h_now r) (h_deny r) (h_q r) u l /\ hasb l (h_mask r) = true /\
+  (q_meth (h_q r) <> GET -> origin_ok (h_q r)).
+Proof. exact gate_sound_after_history. Qed.
+Print Assumptions c06_gate_sound_after_history.
+
+(* Sharpness: a gate that remembers the certificates it has matched to a keymaster signer under ANY key of the
+   leaf that does not determine the issuer (subject, subject + serial number, public key, key id ...) and looks
+   into that memory before it examines the issuer of the presented chain ([memo_step], not the code): the
+   look-alike from another CA is refused by a fresh daemon, admitted as alice after one request of the genuine
+   alice, while the gate of the tree refuses it there too and nothing in the request proves alice. *)
+Theorem c06_verdict_memo_refuted : forall kf : tlsx -> N,
+  kf genuine = kf lookalike ->
+  memo_verdict_after kf [] (presenting lookalike) = Refuse 401 /\
+  memo_verdict_after kf [presenting genuine] (presenting lookalike) = Admit 1 bKMX509 5%Z /\
+  verdict_after [presenting genuine] (presenting lookalike) = Refuse 401 /\
+  forall l, ~ proves 100%Z [] (h_q (presenting lookalike)) 1 l.
+Proof. exact memo_refuted. Qed.
+Print Assumptions c06_verdict_memo_refuted.
